@@ -59,7 +59,7 @@ import (
 
 func init() {
 	register(&Engine{Name: "imp", Gen: genImp, NewExec: func() Exec { return &irExec{} }})
-	register(&Engine{Name: "rem", Gen: genRem, NewExec: func() Exec { return &irExec{} }})
+	register(&Engine{Name: "rem", Gen: genRem, NewExec: func() Exec { return &irExec{stepForks: true} }})
 }
 
 type remRun struct {
@@ -71,20 +71,27 @@ type remRun struct {
 type irInst struct {
 	e    *WEnv
 	rm   *remRun
-	own  bool // owns the chain database (instance 1)
-	dead bool // the implementation panicked inside a database transaction: the instance is unusable
+	own  bool        // owns the chain database (instance 1)
+	dead bool        // the implementation panicked inside a database transaction: the instance is unusable
+	fdb  *stepForkDB // engine rem: copies of the wallet directory after every commit of a removal step (eng_rem_fork.go)
 }
 
 type irExec struct {
-	i1, i2 *irInst
-	fillN  int
+	i1, i2    *irInst
+	fillN     int
+	stepForks bool // engine rem: a `restart` right after a removal step is a crash BETWEEN the commits of that step
+	forkPick  int
 }
 
 func (x *irExec) inst1() *irInst {
 	if x.i1 == nil {
 		e := NewWEnv()
-		e.wm.VerifEnsureTaskChan()
 		x.i1 = &irInst{e: e, own: true}
+		if x.stepForks {
+			x.i1.installStepForks()
+			e.reset() // reopen the wallet database under the wrapper
+		}
+		e.wm.VerifEnsureTaskChan()
 	}
 	return x.i1
 }
@@ -102,11 +109,14 @@ func (x *irExec) inst2() *irInst {
 	e2.wdb, e2.wm, e2.wrapDB = nil, nil, nil
 	os.RemoveAll(e2.dir)
 	os.MkdirAll(e2.dir, 0700)
+	x.i2 = &irInst{e: e2}
+	if x.stepForks {
+		x.i2.installStepForks()
+	}
 	if err := e2.openWallet(true); err != nil {
 		panic(err)
 	}
 	e2.wm.VerifEnsureTaskChan()
-	x.i2 = &irInst{e: e2}
 	return x.i2
 }
 
@@ -219,6 +229,9 @@ func useStrict(e *WEnv, w string) string {
 
 func (x *irExec) op(in *irInst, a []string) string {
 	e := in.e
+	if in.fdb != nil && a[0] != "restart" && a[0] != "remstep" && a[0] != "remsteps" {
+		in.fdb.drop() // the copies of a removal step serve the op that directly follows it only
+	}
 	switch {
 	case irQueries[a[0]] && len(a) >= 2:
 		if useStrict(e, a[1]) != "ok" {
@@ -231,6 +244,14 @@ func (x *irExec) op(in *irInst, a []string) string {
 		return useStrict(e, a[1])
 	case a[0] == "restart" && len(a) == 1:
 		in.abortRemoval()
+		if done, err := in.restartAtCommitBoundary(x.forkPick); done {
+			// the removal step before this op committed more than once: the process dies between two of its commits
+			x.forkPick++
+			if e.wm != nil {
+				e.wm.VerifEnsureTaskChan()
+			}
+			return errTok(err)
+		}
 		r := errTok(e.Restart())
 		if e.wm != nil {
 			e.wm.VerifEnsureTaskChan()
